@@ -222,7 +222,12 @@ class DbSameQuantitySpec(FunctionSpec):
     def value(self, a, b):
         return a + b if self.op == "Sum" else a - b
 
+    def bind_call(self, I, f, args, kwargs):
+        return _db_bind(self, I, f, args, kwargs)
+
     def cases(self, I, ctx):
+        if ctx.get("$call"):
+            return same_quantity_summary(I, ctx, self.value)
         return same_quantity_cases(I, ctx, self.value, lambda q, v: STuple([q, v]), self.result_parts)
 
     def result_parts(self, res):
@@ -333,7 +338,12 @@ class DbNewQuantitySpec(FunctionSpec):
             return a / b
         return z3.ToReal(z3.ToInt(a / b))
 
+    def bind_call(self, I, f, args, kwargs):
+        return _db_bind(self, I, f, args, kwargs)
+
     def cases(self, I, ctx):
+        if ctx.get("$call"):
+            return new_quantity_summary(I, ctx, self.value, self.op != "Multiply")
         return new_quantity_cases(I, ctx, self.value, self.op != "Multiply", self.result_parts)
 
     def result_parts(self, res):
@@ -615,4 +625,123 @@ def arith_lemmas(max_n):
                     got = z3.Sum([z3.If(z3.And(r["kept"], r["qt"] == x["qt"]), r["e"], z3.IntVal(0)) for r in merged])
                     dimc.append(got == dim_sum(M1, x["qt"]) + sgn * dim_sum(M2, x["qt"]))
                 out.append(("lemma[C04.dimension-%s/%s]" % ("quotient" if minus else "product", tag), ("C04",), hyp, And(dimc)))
+    return out
+
+
+# ------------------------------------------------------------------------------------------------
+# summaries of the database operations (used by Array._DoOperation, which calls them per element)
+
+
+def lift2(I, f, v1, v2):
+    """apply the real function f(a, b) to two values that are numbers or numeric sequences (numpy
+    semantics: elementwise, equal lengths or ValueError; at least one ndarray when sequences meet)"""
+    S1, S2 = isinstance(v1, symseq.SymSeq), isinstance(v2, symseq.SymSeq)
+    if isinstance(v1, SNum) and isinstance(v2, SNum):
+        return SNum(f(v1.real(), v2.real()), "float")
+    if S1 and isinstance(v2, SNum):
+        if v1.kind != "numpy.ndarray":
+            raise OutOfSubset("list/tuple operand reaches the arithmetic lambda")
+        return v1.map_term(I, lambda e: f(e, v2.real()))
+    if S2 and isinstance(v1, SNum):
+        if v2.kind != "numpy.ndarray":
+            raise OutOfSubset("list/tuple operand reaches the arithmetic lambda")
+        return v2.map_term(I, lambda e: f(v1.real(), e))
+    if S1 and S2:
+        if "numpy.ndarray" not in (v1.kind, v2.kind):
+            raise OutOfSubset("two non-numpy sequences reach the arithmetic lambda")
+        if not I.P.branch(v1.n == v2.n):
+            I.raise_("ValueError", "operands could not be broadcast together")
+        i = z3.Int("i!lift%d" % id(v1))
+        return symseq.SymSeq("numpy.ndarray", v1.n, z3.Lambda([i], f(S(v1.elems, i), S(v2.elems, i))))
+    raise OutOfSubset("arithmetic on %r and %r" % (v1, v2))
+
+
+def quantity_from_entries(I, R, db, ents, cap):
+    """summary side: the Quantity with composing entries `ents` (QI by the callee's contract)"""
+    from .obtain import derived_from_map, new_simple_quantity
+
+    P = I.P
+    if len(ents) == 1 and P.branch(ents[0][2] == 1):
+        return new_simple_quantity(I, R, db, ents[0][0], ents[0][1], cap)
+    items = [(sname(c), SRef(P.alloc(HList([sname(u), SNum(e, "int")], region="quantity-internal")))) for c, u, e in ents]
+    m = SRef(P.alloc(HDict(items, ordered=True, region="quantity-internal")))
+    return derived_from_map(I, R, db, m, cap)
+
+
+def _db_bind(spec, I, f, args, kwargs):
+    ctx = FunctionSpec.bind_call(spec, I, f, args, kwargs)
+    R = I.P.ghost["reg"]
+    qa, qb = ctx["quantity1"], ctx["quantity2"]
+    for q in (qa, qb):
+        if getattr(getattr(q, "o", None), "qinfo", None) is None:
+            raise OutOfSubset("database operation on a quantity of unknown shape")
+    ctx.update({"R": R, "st": R.snapshot(), "db": I.P.ghost["db"], "qa": qa, "qb": qb, "v1": ctx["value1"], "v2": ctx["value2"]})
+    return ctx
+
+
+def same_quantity_summary(I, ctx, opfn):
+    """cases of Sum/Subtract for a call site (values may be numbers or ndarrays)"""
+    st, R, db = ctx["st"], ctx["R"], ctx["db"]
+    qa, qb, v1, v2 = ctx["qa"], ctx["qb"], ctx["v1"], ctx["v2"]
+    E1, E2 = entries(qa), entries(qb)
+    M1, M2 = match_spec(st, E1, E2)
+    cap1, cap2 = caption_of(qa), caption_of(qb)
+    eq = z3.And(same_entries(E1, E2), to_z3b(I.equal(cap1, cap2)))
+    deq = dims_equal(M1, M2)
+    pw = z3.Or(needs_power(M1), needs_power(M2))
+    X1 = [(x["c"], x["m"], x["e"]) for x in M1]
+    X2 = [(x["c"], x["m"], x["e"]) for x in M2]
+    f_plain = lambda a, b: opfn(a, b)
+    f_conv = lambda a, b: opfn(reexpress_code(st, M1, a), reexpress_code(st, M2, b))
+
+    def mk(ents, cap, f, same=False):
+        def build(I):
+            q = qa if same else quantity_from_entries(I, R, db, ents, cap)
+            return STuple([q, lift2(I, f, v1, v2)])
+
+        return build
+
+    ne = z3.Not(eq)
+    out = [ret("same-quantity", eq, mk(None, None, f_plain, same=True))]
+    out.append(unspecified("exp-ne-1", z3.And(ne, pw)))
+    ok = z3.And(ne, z3.Not(pw))
+    e1, e2 = len(E1) == 0, len(E2) == 0
+    if e1 and not e2:
+        out.append(ret("left-dimensionless", ok, mk(X2, cap2, f_conv)))
+    elif e2 and not e1:
+        out.append(ret("right-dimensionless", ok, mk(X1, cap1, f_conv)))
+    elif e1 and e2:
+        out.append(ret("both-dimensionless", ok, mk(X1, cap1, f_conv)))
+    else:
+        out.append(ret("matching-dimensions", z3.And(ok, deq), mk(X1, cap1, f_conv)))
+        out.append(rai("different-dimensions", z3.And(ok, z3.Not(deq)), "InvalidOperationError"))
+    return out
+
+
+def new_quantity_summary(I, ctx, opfn, minus):
+    st, R, db = ctx["st"], ctx["R"], ctx["db"]
+    qa, qb, v1, v2 = ctx["qa"], ctx["qb"], ctx["v1"], ctx["v2"]
+    E1, E2 = entries(qa), entries(qb)
+    M1, M2 = match_spec(st, E1, E2)
+    pw = z3.Or(needs_power(M1), needs_power(M2))
+    merged = merged_spec(M1, M2, minus)
+    f_conv = lambda a, b: opfn(reexpress_code(st, M1, a), reexpress_code(st, M2, b))
+
+    def build(I):
+        P = I.P
+        kept = [r for r in merged if P.branch(r["kept"])]
+        q = quantity_from_entries(I, R, db, [(r["c"], r["m"], r["e"]) for r in kept], SStr(""))
+        if not kept:
+            P.ghost.setdefault("empty_quantity", q)
+        return STuple([q, lift2(I, f_conv, v1, v2)])
+
+    out = [unspecified("exp-ne-1", pw)]
+    ok = z3.Not(pw)
+    if minus:
+        if not (isinstance(v1, SNum) and isinstance(v2, SNum)):
+            raise OutOfSubset("division of numpy arrays (zero elements give inf/nan, outside the real model)")
+        zero = reexpress_code(st, M2, v2.real()) == 0
+        out.append(rai("division-by-zero", z3.And(ok, zero), "ZeroDivisionError"))
+        ok = z3.And(ok, z3.Not(zero))
+    out.append(ret("result", ok, build))
     return out
